@@ -13,6 +13,30 @@ NOTE = ('Trusted base: rustc nightly MIR/HIR of the type-checked program at -Zmi
         'check, not a proof of the behavioural property; see coverage.not_decided in the evidence.')
 
 CLAIMS = {
+    'C08': dict(
+        technique='transcript event automaton: NFA abstraction of the accepting paths of verify::<Layout> (callees inlined) '
+                  'compared for language EQUALITY with the protocol regex; leaf-set dataflow on the sponge methods; '
+                  'who-may-write / who-may-call rules',
+        text='Decides per layout that every prover message is absorbed exactly once and before the challenges that follow it, '
+             'that the PoW digest is read before the nonce is absorbed, the sponge discipline of the 5 Transcript methods, '
+             'who may write transcript state, distinct squeeze sites per challenge role, and absence of nondeterministic '
+             'callees. Equality with the transcript the prover logged is not decided.',
+        ref='4 C08'),
+    'C09': dict(
+        technique='guard extraction + literal tables (difficulty bounds), dominance order rules, ordered mutation-event '
+                  'sequences per buffer/hasher on straight-line MIR (preimage layout), per-feature hasher type table over '
+                  'the 4 hash configurations',
+        text='Decides the accepted difficulty set (20..=50), digest-read < verify_pow (checked) < nonce absorb, the byte layout '
+             'of both preimages, the hasher type under each feature and the threshold shape (16 bytes = 128 bits, strict <). '
+             'Bit-level equivalence of the threshold with "n leading zero bits" beyond that shape is not decided.',
+        ref='4 C09'),
+    'C10': dict(
+        technique='typestate via dominance (collected -> sorted -> deduplicated -> returned), def-use expression reconstruction '
+                  'of the sampling closure and of the point formula, literal tables',
+        text='Decides that the returned index vector is sorted and deduplicated on every path, that each sample is a remainder '
+             'modulo the evaluation-domain size, the sample count source, and the point formula 3*w^bitreverse64(i*2^(64-log)). '
+             'Agreement with the prover-logged set is not decided.',
+        ref='4 C10'),
     'C02': dict(
         technique='field-flow coverage: interprocedural leaf-set dataflow from every leaf field of StarkProof (type closure '
                   'from the ADT table) to hash-argument / rejecting-comparison sinks with verdict propagation, per layout; '
